@@ -9,9 +9,11 @@ updateSortedHash.  Core-only.
   recomputed by every membership change exactly as `updateSortedHash` does (insertion sort stands for
   `sort.Sort`; Go's random map iteration order is irrelevant because the keys are sorted afterwards);
 * `GetNodeBy` on an empty ring indexes an empty slice: the explicit outcome `Res.panic`.
-The ring operations are generic in the member type and in the function `pts` giving the replica points of
-a member: the theorems of Props/C17.lean hold for every such function, the driver instantiates it with
-FNV-1a over `fmt.Sprintf("%s-%d", node, i)`, i < ReplicaCount.
+The ring operations are generic in the member type and in a configuration `Cfg`: the function `pts` giving the
+replica points of a member and the order `ord` in which the remaining members are visited when `RemoveNode`
+gives points back. The theorems of Props/C17.lean hold for every such function (an arbitrary hash) and every
+order that enumerates the member set; the driver instantiates them with FNV-1a over
+`fmt.Sprintf("%s-%d", node, i)`, i < ReplicaCount, and `sort.Strings`.
 -/
 import Fatchoy.Gen.C17
 namespace Fatchoy.C17
@@ -27,6 +29,9 @@ structure Params where
   searchCmp : String
   /-- `RemoveNode` deletes a point only when the removed member still owns it -/
   guarded : Bool
+  /-- `RemoveNode` then puts every replica point that a remaining member lacks back on the ring -/
+  restores : Bool
+  fmtRestore : String
 deriving Repr, DecidableEq
 
 /-- parameters regenerated from the source on every run -/
@@ -34,7 +39,8 @@ def params : Params :=
   { replicas := Gen.C17.replicaCount, offset := Gen.C17.fnvOffset, prime := Gen.C17.fnvPrime,
     hashBits := Gen.C17.hashBits, fnvOrder := Gen.C17.fnvOrder,
     fmtAdd := Gen.C17.replicaFormatAdd, fmtRemove := Gen.C17.replicaFormatRemove,
-    searchCmp := Gen.C17.searchCmp, guarded := Gen.C17.removeGuarded }
+    searchCmp := Gen.C17.searchCmp, guarded := Gen.C17.removeGuarded,
+    restores := Gen.C17.removeRestores, fmtRestore := Gen.C17.replicaFormatRestore }
 
 /-! ### the hash -/
 
@@ -107,10 +113,31 @@ def addNode (pts : μ → List Nat) (r : Ring μ) (m : μ) : Ring μ :=
 def removeStep (guarded : Bool) (m : μ) (c : List (Nat × μ)) (p : Nat) : List (Nat × μ) :=
   if guarded then (if find c p = some m then erase c p else c) else erase c p
 
-/-- `RemoveNode` -/
-def removeNode (guarded : Bool) (pts : μ → List Nat) (r : Ring μ) (m : μ) : Ring μ :=
-  let c := (pts m).foldl (removeStep guarded m) r.circle
-  { circle := c, nodes := r.nodes.filter (· ≠ m), sorted := updateSorted c }
+/-- how the ring is configured: the two facts about `RemoveNode` regenerated from the source, the replica
+  points of a member (any function: an arbitrary hash), and the order in which `RemoveNode` visits the
+  remaining members when it gives points back (`sort.Strings` of the member names in the code) -/
+structure Cfg (μ : Type) where
+  guarded : Bool
+  restores : Bool
+  pts : μ → List Nat
+  ord : List μ → List μ
+
+/-- `if _, found := c.circle[key]; !found { c.circle[key] = name }` -/
+def restoreStep (m : μ) (c : List (Nat × μ)) (p : Nat) : List (Nat × μ) :=
+  if (find c p).isNone then insert c p m else c
+
+/-- the give-back loop of `RemoveNode`: for every remaining member, in the given order, every replica
+  point that is not on the ring is put there for that member -/
+def restore (pts : μ → List Nat) (ms : List μ) (c : List (Nat × μ)) : List (Nat × μ) :=
+  ms.foldl (fun c m => (pts m).foldl (restoreStep m) c) c
+
+/-- `RemoveNode`: delete the points the member owns, drop it from the member set, give the remaining
+  members the points they lack (points they had lost to the removed member through a collision) -/
+def removeNode (K : Cfg μ) (r : Ring μ) (m : μ) : Ring μ :=
+  let c := (K.pts m).foldl (removeStep K.guarded m) r.circle
+  let nodes := r.nodes.filter (· ≠ m)
+  let c' := if K.restores then restore K.pts (K.ord nodes) c else c
+  { circle := c', nodes := nodes, sorted := updateSorted c' }
 
 /-- the loop of `search`: `for lo < hi { mid := lo + (hi-lo)/2; if a[mid] <= hash { lo = mid+1 } else { hi = mid } }` -/
 def searchLoop (a : List Nat) (h : Nat) (lo hi : Nat) (hhi : hi ≤ a.length) : Nat :=
@@ -146,12 +173,38 @@ inductive Op (μ : Type) where
   | remove (m : μ)
 deriving Repr
 
-def step (guarded : Bool) (pts : μ → List Nat) (r : Ring μ) : Op μ → Ring μ
-  | .add m => addNode pts r m
-  | .remove m => removeNode guarded pts r m
+def step (K : Cfg μ) (r : Ring μ) : Op μ → Ring μ
+  | .add m => addNode K.pts r m
+  | .remove m => removeNode K r m
 
 /-- the ring after a history of membership changes, starting from `New()` -/
-def run (guarded : Bool) (pts : μ → List Nat) (ops : List (Op μ)) : Ring μ :=
-  ops.foldl (step guarded pts) Ring.empty
+def run (K : Cfg μ) (ops : List (Op μ)) : Ring μ :=
+  ops.foldl (step K) Ring.empty
+
+/-! ### the concrete configuration: byte-string members, FNV-1a replica points, `sort.Strings` -/
+
+/-- `a < b` for Go strings: bytewise lexicographic -/
+def bytesLt : List UInt8 → List UInt8 → Bool
+  | [], [] => false
+  | [], _ :: _ => true
+  | _ :: _, [] => false
+  | a :: as, b :: bs => a < b || (a == b && bytesLt as bs)
+
+def insertName (x : List UInt8) : List (List UInt8) → List (List UInt8)
+  | [] => [x]
+  | y :: ys => if bytesLt y x then y :: insertName x ys else x :: y :: ys
+
+/-- `sort.Strings(names)` (the names are distinct) -/
+def sortNames (l : List (List UInt8)) : List (List UInt8) := l.foldr insertName []
+
+/-- the configuration the driver runs: `none` = a replica format the model does not know, or different
+  formats in AddNode and RemoveNode -/
+def concreteCfg? (P : Params) : Option (Cfg (List UInt8)) :=
+  match parseFmt P.fmtAdd, parseFmt P.fmtRemove with
+  | some sa, some sr =>
+    if sa = sr ∧ (P.restores = false ∨ parseFmt P.fmtRestore = some sa) then
+      some { guarded := P.guarded, restores := P.restores, pts := replicaPoints P sa, ord := sortNames }
+    else none
+  | _, _ => none
 
 end Fatchoy.C17
